@@ -146,6 +146,17 @@ impl Scenario for BusHistory {
                         _ => (0x6000 + rng.below(0x2000) as i64, rng.below(2) as i64),
                     };
                     case.push("w", &[reg, v]);
+                    if rng.chance(1, 2) {
+                        // what instruction fetch sees in the window right after the mapping may have changed
+                        // (large images differ between banks only at their start, middle and end: aim there)
+                        let a = match rng.below(4) {
+                            0 => 0x4000 + rng.below(0x4000) as i64,
+                            1 => 0x4000,
+                            2 => 0x5ff0,
+                            _ => 0x7ff0,
+                        };
+                        case.push("fv", &[a]);
+                    }
                 }
                 22 => {
                     if rng.chance(1, 2) {
@@ -296,6 +307,14 @@ impl Scenario for BusHistory {
                         continue;
                     }
                     let view = m.fetch_view(a as usize, 24);
+                    if a < 0x8000 {
+                        // the translator reads guest code through a function of its own: same bytes required
+                        let tview = m.fetch_view_translator(a as usize, 24);
+                        if tview != view {
+                            out.push(fail(format!("C10/fetch-view/translator-differs/{}", REGION_NAMES[region_of(a) as usize]), format!("{}: at {:#06x} the translator reads {:02x?}, the interpreter {:02x?}", what, a, &tview[..tview.len().min(8)], &view[..view.len().min(8)])));
+                            return out;
+                        }
+                    }
                     if view.is_empty() {
                         out.push(fail(format!("C10/fetch-view-empty/{}", REGION_NAMES[region_of(a) as usize]), format!("{}: no bytes visible to instruction fetch at {:#06x}", what, a)));
                         return out;
